@@ -327,8 +327,9 @@ def build(cfg, ctx):
                     v[...] = q(v.copy())
                     return v
                 return w
-            b.projs = [_inplace(q) for q in b.projs]
-        kw["projections"] = list(b.projs)
+            kw["projections"] = [_inplace(q) for q in b.projs]     # b.projs stays pure: the harness judges with it
+        else:
+            kw["projections"] = list(b.projs)
     b.h = b.prox = None
     if cfg.get("reg"):
         h, prox, lh = make_regulariser(cfg["reg"], n)
